@@ -12,13 +12,15 @@ import kkdrv
 import mockhost
 import vplib
 from checks.common import verdict
-from kkdrv import EP_NAMES, b2s, canon_rules, mk_key, py_disabled, py_modes_redirect, py_valid
+from kkdrv import EP_NAMES, b2s, canon_rules, mk_key, py_disabled, py_modes_redirect, py_reported_state, py_valid
 
 # guids as a host may write them: lower / upper / mixed case, braces, not a GUID at all
 GUIDS = ["00000001-1111-4222-8333-000000000001", "00000002-AAAA-4BBB-8CCC-00000000000B", "00000003-aaaa-4BBB-8ccc-00000000000c",
          "{00000004-1111-4222-8333-000000000004}", "KEY-0005", "00000006-1111-4222-8333-000000000006",
          "00000007-ABCD-4222-8333-000000000007", "key_8", "00000009-1111-4222-8333-000000000009"]
 MODES = ["enforce", "audit", "disabled", "Enforce", "AUDIT", "Disabled", "foo", "Énforce"]
+# hosts write the mode words in any case; the agent lower-cases them everywhere
+CASED_MODES = ["Enforce", "Audit", "Disabled", "ENFORCE", "AUDIT", "DISABLED", "eNfOrCe", "auDit"]
 BODIES = [
     ("allow", None),
     ("deny", None),
@@ -63,7 +65,8 @@ def gen_history(rng, hid):
     def pick_item(ep):
         rid = rng.choice(["A", "B", "C", "A", "sig/1", ""])
         if (ep, rid) not in id_map or rng.random() < 0.10:
-            cand = (rng.choice(MODES[:3]) if rng.random() < 0.75 else rng.choice(MODES), rng.randrange(len(BODIES)))
+            r_ = rng.random()
+            cand = (rng.choice(MODES[:3]) if r_ < 0.45 else rng.choice(CASED_MODES) if r_ < 0.88 else rng.choice(MODES), rng.randrange(len(BODIES)))
             if (ep, rid) not in id_map:
                 id_map[(ep, rid)] = cand
             else:
@@ -256,6 +259,7 @@ def prop_check(h, obs, computed, local_before):
     keys_seen = {}      # guid -> set of values offered by the host / the local store
     functional_ids = True
     functional_guids = True
+    applied_report = "Unknown"      # the reported state of the last document whose poll ran to completion
     for i, (st, o) in enumerate(zip(h["steps"], obs)):
         cur = getters(o)
         s = st["status"]
@@ -275,6 +279,8 @@ def prop_check(h, obs, computed, local_before):
                 return "step %d: failed/invalid status answer caused redirect-policy updates %s" % (i, o["policy"])
             if [r[0] for r in o["requests"]] != ["status"]:
                 return "step %d: failed/invalid status answer was followed by %s" % (i, o["requests"])
+            if st["notify"] and prev["state"] in ("disabled", "Unknown"):
+                applied_report = "Unknown"
             prev = cur
             continue
         d = s["doc"]
@@ -335,6 +341,27 @@ def prop_check(h, obs, computed, local_before):
                     return "step %d: after a clean poll the key in memory is %s, the host names %s" % (i, cur["key_guid"], exp_key["guid"])
         # -- "whenever the reported channel state changes each endpoint is intercepted exactly when
         #     its mode is not disabled" (state before / after the poll; a notify in the group hides it)
+        # ... judged by what the DOCUMENTS report: a poll that runs to completion (no failed key step) on a document
+        #     whose reported state differs from the last one applied must update all three policies by the modes
+        need = not disabled and (d.get("guid") is None or d.get("guid") != prev["key_guid"])
+        completes = (not need) or (d.get("guid") is not None and lb is not None) or acq_ok
+        if completes:
+            rep = py_reported_state(d)
+            if rep != applied_report:
+                want = py_modes_redirect(d)
+                if o["policy"] != want:
+                    return "step %d: the reported channel state changed %r -> %r but the redirect policy updates were %s, modes say %s" % (
+                        i, applied_report, rep, o["policy"], want)
+            elif o["policy"]:
+                return "step %d: reported channel state unchanged (%r) but redirect policy updated: %s" % (i, rep, o["policy"])
+            applied_report = rep
+            if st["notify"] and rep == "disabled":
+                applied_report = "Unknown"
+        else:
+            if o["policy"]:
+                return "step %d: the poll did not complete (failed key step) but redirect policy updated: %s" % (i, o["policy"])
+            if st["notify"] and prev["state"] in ("disabled", "Unknown"):
+                applied_report = "Unknown"
         if not st["notify"]:
             if cur["state"] != prev["state"]:
                 want = py_modes_redirect(d)
